@@ -174,3 +174,16 @@ PROPS["C07"] = Spec(
     bounds={"quick": "<=7 components, 4x2500 (timeout cases run twice)", "thorough": "<=15 components, 16x15000"},
     assumptions=COMMON_ASSUMPTIONS,
 )
+
+PROPS["C12"] = Spec(
+    engine="harness.engines.ctxstack", quick_cases=2500, thorough_cases=20000,
+    rule="trees of tasks (anyio task-group children, service tasks, task-factory tasks; depth<=3) each running a generated script "
+    "of nested context blocks (nest<=4) left by return / Exception / BaseException / cancellation / a raising teardown callback, "
+    "checkpoints, Context() creations and observations, plus component phases creating contexts; oracle = per-task stack model: "
+    "every observation of current_context() must be the task's own top (NoCurrentContext when empty), parents are the creating "
+    "task's top (inside component code: the context start_component was called in), spawned tasks start from the spawner's top / a "
+    "fresh context inheriting from the owner, the top is restored after every way of leaving; non-trivial = >=2 tasks inside "
+    "their own context blocks at the same time, or a non-return exit at nesting depth>=2",
+    bounds={"quick": "<=30 script items per case, 4x2500", "thorough": "<=60 items, 16x20000"},
+    assumptions=COMMON_ASSUMPTIONS,
+)
